@@ -535,7 +535,8 @@ class Part(object):
                     normal_dur *= 4 / ts.beat_type
                 if musical_beat:
                     normal_dur = ts.musical_beats
-                if actual_dur < normal_dur:
+                # a full bar whose length is only off by rounding is not a pickup
+                if actual_dur < normal_dur and not np.isclose(actual_dur, normal_dur):
                     y -= actual_dur
             else:
                 # warn
